@@ -1227,6 +1227,40 @@ def finish_tables(F, rep, rule="C19.1"):
                     raise Undecided("hash of a key outside the build set")
                 if name == "clone" and args:
                     return recv(it, args[0])
+                # ---- the order and equality of terminal k-mers.  A valid graph has pairwise different terminal k-mers on a side; their
+                # order is arbitrary (oracle: a permutation), and one of them may be the all-A k-mer (= K::empty()), which is then the
+                # smallest — an index builder that sorts / compares its keys must cope with every such case
+                def kinfo(v):
+                    v = v.fields[0] if isinstance(v, Tup) and v.fields else v
+                    return (v.info.get("end"), v.info.get("node")) if isinstance(v, Opaque) and "end" in v.info else None
+                if name in ("sort", "sort_unstable") and len(args) == 1 and isinstance(args[0], Ref):
+                    from .models import seq_of
+                    sq = seq_of(it, args[0])
+                    if sq is not None:
+                        v, off, cnt = sq
+                        el = list(v.elems[off:off + cnt])
+                        infos = [kinfo(e) for e in el]
+                        if el and all(i is not None and i[0] in ("first_kmer", "last_kmer") and i[0] == infos[0][0] for i in infos) and len(set(infos)) == len(infos):
+                            end = infos[0][0]
+                            order = self.order_of(end, sorted(i[1] for i in infos))
+                            el.sort(key=lambda e: order.index(kinfo(e)[1]))
+                            it.write(args[0].cell, args[0].path, type(v)(list(v.elems[:off]) + el + list(v.elems[off + cnt:])))
+                            return Tup([])
+                        if len(el) <= 1:
+                            return Tup([])
+                if name in ("eq", "ne") and fn.get("trait", "").endswith("PartialEq") and len(args) == 2:
+                    a, b = kinfo(recv(it, args[0])), kinfo(recv(it, args[1]))
+                    if a is not None and b is not None:
+                        same = None
+                        if a == b:
+                            same = True
+                        elif a[0] == b[0]:
+                            same = False        # terminal k-mers of two nodes on the same side differ
+                        elif "empty" in (a[0], b[0]):
+                            x = b if a[0] == "empty" else a
+                            same = self.all_a(x[0]) == x[1]
+                        if same is not None:
+                            return mkbool(same if name == "eq" else not same)
                 # queries on a node's extensions: any answer is possible, the indices must not depend on it
                 if args and isinstance(recv(it, args[0]), Opaque) and "node-exts" in tags_of(recv(it, args[0])):
                     e = recv(it, args[0])
@@ -1246,6 +1280,25 @@ def finish_tables(F, rep, rule="C19.1"):
                 if "exts-vec" in tags_of(v) or "data-vec" in tags_of(v):
                     return Int(64, False, val=self.n)
                 return None
+
+            def all_a(self, end):
+                """which node's `end` k-mer is the all-A k-mer (None: no node's)"""
+                if ("order:" + end) in self.memo:
+                    o = self.memo["order:" + end]
+                    return self.choose("all-A:" + end, (None,) + tuple(o[:1]))
+                return self.choose("all-A:" + end, (None,) + tuple(range(min(self.n, 3))))
+
+            def order_of(self, end, nodes):
+                import itertools
+                if len(nodes) > 3:
+                    # large scripted sizes: one order that is not the node order
+                    perms = [tuple(reversed(nodes))]
+                else:
+                    perms = list(itertools.permutations(nodes))
+                if ("all-A:" + end) in self.memo and self.memo["all-A:" + end] is not None:
+                    first = self.memo["all-A:" + end]
+                    perms = [p_ for p_ in perms if p_[0] == first] or perms
+                return list(self.choose("order:" + end, perms))
 
         names = [f["name"] for f in F.adts["graph::DebruijnGraph"]["variants"][0]["fields"]]
         per_n = {}
@@ -1294,7 +1347,11 @@ def finish_tables(F, rep, rule="C19.1"):
                 want = {"left_order": [("first_kmer", i) for i in range(n)], "right_order": [("last_kmer", i) for i in range(n)]}
                 for nm in ("left_order", "right_order"):
                     b_ = slots[nm]
-                    if b_ is None or b_[1] != want[nm] or b_[2] != list(range(n)):
+                    # the index is a MAP: the order in which the (key, value) pairs are handed to the builder does not matter
+                    pairs_ok = b_ is not None and b_[1] is not None and b_[2] is not None and len(b_[1]) == len(b_[2]) == n and \
+                        all(isinstance(k_, tuple) for k_ in b_[1]) and sorted(zip([k_[1] if isinstance(k_[1], int) else -1 for k_ in b_[1]], b_[2])) == [(i, i) for i in range(n)] and \
+                        all(k_[0] == want[nm][0][0] for k_ in b_[1])
+                    if not pairs_ok:
                         rep.violated(rule, "%s/%s" % (fname, nm),
                                      "%s on a graph of %d node(s)%s: the %s index is built from keys %s and values %s; required: the %s of node i paired with i, for "
                                      "every i = 0..n — a node end that is not indexed is never found by find_link" % (
